@@ -14,6 +14,7 @@ THEOREMS = '''fourElementTraces_entries cumulant_general_eq_commutators cumulant
 cumulant_single_qubit_eq_general shortcut_needs_pauli_basis second_order_antisymmetric
 first_order_symmetric K_row_col_zero cumulant_real cumulant_source_shape'''.split()
 LEAN_MODULES = ['FFVerif.Props.C09']
+PINS = ['pinBasisArrayFinalize', 'pinFourElementTraces', 'pinErrorTransferMatrix']
 GEN_SITES = ['einsum:numeric_calculate_cumulant_function_', 'einsum:basis_Basis_four_element_traces_',
              'const:numeric.calculate_cumulant_function']
 COMPONENTS = ['cumulant_general', 'cumulant_single_qubit']
@@ -195,6 +196,11 @@ def search(ctx, deep=False):
         feats = gens.rand_features(rng, 0.3, ['idle', 'nontraceless_nop', 'neg_sens', 'degenerate'])
         d = int(rng.choice([2, 2, 2, 3])) if i % 9 else 4
         bs = [('ggm',), ('custom', gens.rotated_basis(rng, d, True), True, 'Custom')]
+        # bases derived from a Basis object whose own trace tensor / flags are already cached
+        how = str(rng.choice(['permute', 'conj', 'transpose', 'ctor', 'scale_normalize']))
+        par = ('ggm',) if rng.random() < 0.5 else ('custom', gens.rotated_basis(rng, d, True), True,
+                                                   'Custom')
+        bs += [('derived', par, how, int(rng.integers(0, 2**31)))]*2
         if d in (2, 4):
             bs.append(('pauli',))
         if d == 2:
